@@ -36,4 +36,18 @@ SPECS = {
              "xlists": ["a", "b"], "ilists": ["indices"]},
         ],
     },
+    # inverse_tail_integral: early returns + call of the (specified) root finder; emitter harness/py2coq_c12inv.py
+    "GenC12Inverse": {
+        "file": "rpylib/model/levycopulamodel.py",
+        "dom": "Q",
+        "header": ("From Coq Require Import List Arith Bool QArith.\nFrom RV Require Import Base.ExtNum.\nImport ListNotations.\n"
+                   "Set Implicit Arguments.\n"),
+        "section": [("N", "Num"), ("ofQ", "Q -> N"),            # ofQ: exact value of a float literal
+                    ("U1", "nat -> ext N -> N"),                # self.marginal_tail_integral(i, x)
+                    ("toms748", "(N -> N) -> N -> N -> N -> N")],   # scipy.optimize.toms748(f, a, b, xtol): specified, not modelled
+        "funcs": [
+            {"py": "LevyCopulaModel.inverse_tail_integral", "coq": "inverse_tail_integral", "pyargs": ["i", "x"],
+             "args": [("i", "nat"), ("x", "N")], "ret": "N", "emitter": "py2coq_c12inv:emit_inverse"},
+        ],
+    },
 }
